@@ -19,7 +19,8 @@ RULE = (
     "valid instance description of any class -> harness-built element tree; 1-5 foreign nodes inserted at arbitrary child "
     "positions of arbitrary aggregates (before the first child, between list members, after the last, inside empty aggregates): "
     "unknown data element, unknown empty element, unknown aggregate with generated content incl. complete subtrees of known "
-    "classes, vendor-prefixed element / aggregate (INTU.BID, X.ACCTID, A.B.C), names that are other classes' tags; delivered "
+    "classes, vendor-prefixed element / aggregate (INTU.BID, X.ACCTID, A.B.C), names that are other classes' tags (the root's "
+    "own tag OFX among them), unknown / vendor aggregates nested 24 levels deep; delivered "
     "as element tree to Aggregate.from_etree and as XML and SGML text through OFXTree.parse().convert().  Oracle (metamorphic): "
     "conversion succeeds and equals the conversion of the uncontaminated document (which equals the source instance); the "
     "input tree is unchanged.  non-trivial = >=1 insertion not at the end of its parent, or an inserted aggregate, or a "
@@ -35,8 +36,9 @@ UNKNOWN_LEAF = ["ZZUNKNOWN", "NOTATAG", "X1", "FOO_BAR", "MEMO2"]
 VENDOR_LEAF = ["INTU.BID", "X.ACCTID", "A.B.C", "INTU.USERID", "Q.1"]
 VENDOR_AGG = ["INTU.XYZ", "A.B", "VENDOR.AGG"]
 UNKNOWN_AGG = ["ZZAGG", "NOTANAGG", "XTRA"]
-OTHER_CLASS_TAGS = ["STATUS", "BAL", "CURRENCY", "SONRQ", "STMTTRN", "FI", "INVPOS", "SECID"]
-OTHER_LEAF_TAGS = ["TRNUID", "CODE", "ACCTID", "DTSERVER", "SEVERITY"]
+OTHER_CLASS_TAGS = ["STATUS", "BAL", "CURRENCY", "SONRQ", "STMTTRN", "FI", "INVPOS", "SECID", "OFX", "OFX"]
+OTHER_LEAF_TAGS = ["TRNUID", "CODE", "ACCTID", "DTSERVER", "SEVERITY", "OFX"]
+DEEP = 24  # nesting depth of the "deep" foreign aggregate (the deepest path of the OFX schema itself is about a dozen levels)
 
 
 def declared_names(cls):
@@ -92,6 +94,18 @@ def foreign_node(kind, k, enclosing_cls):
         ET.SubElement(e, "INTU.A").text = "1"
         e.append(D.to_etree(M.minimal(U["STATUS"])))
         return e, "vendor-aggregate"
+    if kind == 5:
+        # an unknown / vendor aggregate may be nested as deeply as its author likes
+        nm = pick(UNKNOWN_AGG) if k % 2 else VENDOR_AGG[k % len(VENDOR_AGG)]
+        if nm is None:
+            return None
+        e = ET.Element(nm)
+        cur = e
+        for i in range(DEEP):
+            cur = ET.SubElement(cur, "ZZL%d" % i if k % 2 else "INTU.L%d" % i)
+        ET.SubElement(cur, "ZZLEAF").text = "x"
+        ET.SubElement(e, "ZZTAIL").text = "y"
+        return e, "deep-unknown-aggregate"
     raise H.HarnessError(kind)
 
 
@@ -210,7 +224,7 @@ def _worker(job):
         strat = st.builds(
             lambda d, ins: {"inst": d, "ins": ins},
             M.instance_st(cls, markup=True),
-            st.lists(st.tuples(st.integers(0, 40), st.integers(0, 12), st.integers(0, 4), st.integers(0, 30)).map(list), min_size=1, max_size=5),
+            st.lists(st.tuples(st.integers(0, 40), st.integers(0, 12), st.integers(0, 5), st.integers(0, 30)).map(list), min_size=1, max_size=5),
         )
 
         def body(case):
